@@ -110,6 +110,10 @@ type World struct {
 	// (gate-level scenarios use it to record the gate sequence).
 	GateHook func(t *Task, g GateInfo)
 
+	// SetSeedTwice: when machines are restored from mnemonics the operator enters the mnemonic twice
+	SetSeedTwice bool
+	// LongPasswords: the operators' passphrases are longer than any key size
+	LongPasswords bool
 	// PostGates adds a gate behind every state read and write (C14)
 	PostGates bool
 	// NameOf, when set before the cluster is built, chooses the participants'
